@@ -76,7 +76,7 @@ engine("C08", "Exhausted failures go to the owning @catch_error handler within m
 engine("C09", "collect_events lists: as expected, each event in at most one list, no full set lost.", "5/C09")
 engine("C10", "wait_for_event: at most one completion/timeout per wait, right type and requirements, waiter_event once.", "5/C10")
 engine("C04", "One outcome, one matching terminal event, stream consumer terminates.", "5/C04")
-engine("C11", "Tick-log replay (real rebuild_state_from_ticks at every on_tick) equals the live runner state; the same live context inspected at every quiescence point (to_dict read back, running_steps).", "5/C11")
+engine("C11", "Tick-log replay (real rebuild_state_from_ticks at every on_tick) equals the live runner state; the same live context inspected at every quiescence point (to_dict read back, running_steps), also right after a resume before the first tick.", "5/C11")
 engine("C35", "StepStateChanged telemetry alternates per worker slot, PREPARING only at capacity, InputRequired published once.", "5/C35")
 
 
@@ -105,7 +105,7 @@ reg("C14", "model_checking",
     "deferred release under the reload lock, abort, reload-on-send over an abstract retrying engine whose timers live in "
     "memory) for idle_timeout shorter and longer than the retry delay: the intended design keeps every timer, the as-coded "
     "variant loses it exactly when idle_timeout < delay. The same configurations and restart-at-each-tick crash points run "
-    "on the real server stack; Obs_C14 judges whether the retry / TimeoutError took effect and the handler left 'running'.",
+    "on the real server stack (also a wait whose timeout is 0); Obs_C14 judges whether the retry / TimeoutError took effect and the handler left 'running'.",
     SERVER_NOTE, SERVER_TECH, "5/C14")
 reg("C15", "model_checking",
     "Handler record vs outcome. TLC checks HandlerStatus.tla (terminal-event status write with retry/back-off and bounded "
@@ -135,7 +135,7 @@ reg("C26", "model_checking",
     "Idle release/resume loses nothing and never double-runs (both stacks). In-process: TLC checks IdleRelease.tla: release only "
     "when the engine has no queued/running/scheduled work, no event lost, active <=> one live loop. The real stack is "
     "driven through idle gaps around the timeout, two release/reload cycles, two concurrent senders to a released run and "
-    "a send racing the deferred release in both callback orders; Obs_C26 judges processed events, live loops and what the "
+    "a send racing the deferred release in both callback orders, a garbage-collector pass while a reloaded run waits; Obs_C26 judges processed events, live loops and what the "
     "engine held at release. DBOS: TLC checks Lifecycle.tla (begin/complete release, crash timeout takeover, try_begin_resume, "
     "one owner per release, liveness) and DbosIdleRelease.tla (timer, mailbox, check-then-send window); histories taken from "
     "the paths of TLC's Lifecycle graph run on the real SqliteRunLifecycleLock under a virtual clock, the real "
